@@ -1,5 +1,6 @@
 import DarkluaModel.Shared.VisitorSound.Heap.HSteps
 import DarkluaModel.Shared.VisitorSound.Heap.General
+import DarkluaModel.Shared.VisitorSound.Heap.HContinue
 import DarkluaModel.Shared.VisitorSound
 /-!
 # Stage 3: lifting for rules that change the allocation pattern (cells) or depend on a context
@@ -24,6 +25,10 @@ chained at the level of outcomes (`Chain` of links).
 * ready-made links (`Heap/HSteps.lean`): `LkB.dropLocal`, `LkRep.dropLocal`, `LkB.addLocal`,
   `LkS.permLocal`, `LkS.localFnToAssign`, `LkE.injectGlobal`, `LkE.ofCtxEq` / `LkS.ofCtxEq`
   (contextual exact equalities), `LkE.ofEq` … (exact steps).
+* `remove_continue` (`Heap/HContinue.lean`): `ContConv flag B B'` (every `continue` of this loop level ↦
+  `flag = true; break`), `contWrap flag B'`, and the links `LkS.removeContinueWhile` / `…Nfor` / `…Gfor`
+  (exact; the flag is a pinned one-sided right cell); `SoundS.while_shape` / `nfor_shape` / `gfor_shape` for
+  loops whose bodies are related only up to the shape of the control result (`BodyShape`).
 * `HooksExact.toHeap` — exactly sound hooks that introduce no new references are heap hooks.
 * NOT covered here: renumbering of tables / closures — see stage 4, `Shared/VisitorSoundHeapV.lean`
   (`HooksV`, `Visitor.visit_v`, `Sem.HeapV.renumbering_invariance`); re-declaration of a dropped / watched name (dead sets are
